@@ -133,29 +133,50 @@ data, `BX` = length, the needle byte in every lane of `X0`), running the real in
 definition's answer through `R8` and performs one 16-byte load that cannot fault — for every memory, base address,
 length below 16 and needle byte.  (Not modelled: the three-instruction lane broadcast of the prologue, the ABI wrappers.) -/
 
-theorem instruction_level_small (mem : Mem) (base len : Nat) (c : UInt8) (h16 : len < 16) (hb : base + 32 < 2 ^ 64) :
-    (Asm.runSmall Gen.Asm.small_indexbytebody (Asm.init mem base len c)).out = some (specIndex (fun b => b == c) mem base len) ∧
-    (Asm.runSmall Gen.Asm.small_indexbytebodyCase (Asm.init mem base len c)).out =
+theorem instruction_level_small (mem : Mem) (base len : Nat) (c : UInt8) (junk : Asm.Reg → Nat) (jx : Nat → UInt8) (jz jc : Bool)
+    (h16 : len < 16) (hb : base + 32 < 2 ^ 64) :
+    (Asm.runSmall Gen.Asm.small_indexbytebody (Asm.init mem base len c junk jx jz jc)).out = some (specIndex (fun b => b == c) mem base len) ∧
+    (Asm.runSmall Gen.Asm.small_indexbytebodyCase (Asm.init mem base len c junk jx jz jc)).out =
         some (specIndex (fun b => (b ||| 0x20) == c) mem base len) ∧
-    (Asm.runSmall Gen.Asm.small_indexByteBodyNonASCII (Asm.init mem base len c)).out =
+    (Asm.runSmall Gen.Asm.small_indexByteBodyNonASCII (Asm.init mem base len c junk jx jz jc)).out =
         some (specIndex (fun b => decide (b ≥ 0x80)) mem base len) := by
   refine ⟨?_, ?_, ?_⟩
-  · rw [(Asm.small_indexbytebody_correct mem base len c h16 hb).1, small_correct _ mem base len h16]
-  · rw [(Asm.small_indexbytebodyCase_correct mem base len c h16 hb).1, small_correct _ mem base len h16]
-  · rw [(Asm.small_indexByteBodyNonASCII_correct mem base len c h16 hb).1, small_correct _ mem base len h16]
+  · rw [(Asm.small_indexbytebody_correct mem base len c junk jx jz jc h16 hb).1, small_correct _ mem base len h16]
+  · rw [(Asm.small_indexbytebodyCase_correct mem base len c junk jx jz jc h16 hb).1, small_correct _ mem base len h16]
+  · rw [(Asm.small_indexByteBodyNonASCII_correct mem base len c junk jx jz jc h16 hb).1, small_correct _ mem base len h16]
 
 /-- every load those instruction sequences perform lies in a 4096-byte page that holds a byte of the argument -/
-theorem instruction_level_small_safe (mem : Mem) (base len : Nat) (c : UInt8) (h16 : len < 16) (h0 : 0 < len)
-    (hb : base + 32 < 2 ^ 64) :
+theorem instruction_level_small_safe (mem : Mem) (base len : Nat) (c : UInt8) (junk : Asm.Reg → Nat) (jx : Nat → UInt8) (jz jc : Bool)
+    (h16 : len < 16) (h0 : 0 < len) (hb : base + 32 < 2 ^ 64) :
     ∀ prog ∈ [Gen.Asm.small_indexbytebody, Gen.Asm.small_indexbytebodyCase, Gen.Asm.small_indexByteBodyNonASCII],
-    ∀ ld ∈ (Asm.runSmall prog (Asm.init mem base len c)).loads, ∀ a, ld.1 ≤ a → a < ld.1 + ld.2 →
+    ∀ ld ∈ (Asm.runSmall prog (Asm.init mem base len c junk jx jz jc)).loads, ∀ a, ld.1 ≤ a → a < ld.1 + ld.2 →
       ∃ b, base ≤ b ∧ b < base + len ∧ a / 4096 = b / 4096 := by
   intro prog hprog
   simp only [List.mem_cons, List.mem_nil_iff, or_false] at hprog
   rcases hprog with rfl | rfl | rfl
-  · rw [(Asm.small_indexbytebody_correct mem base len c h16 hb).2]; exact small_loads_safe _ mem base len h16 h0
-  · rw [(Asm.small_indexbytebodyCase_correct mem base len c h16 hb).2]; exact small_loads_safe _ mem base len h16 h0
-  · rw [(Asm.small_indexByteBodyNonASCII_correct mem base len c h16 hb).2]; exact small_loads_safe _ mem base len h16 h0
+  · rw [(Asm.small_indexbytebody_correct mem base len c junk jx jz jc h16 hb).2]; exact small_loads_safe _ mem base len h16 h0
+  · rw [(Asm.small_indexbytebodyCase_correct mem base len c junk jx jz jc h16 hb).2]; exact small_loads_safe _ mem base len h16 h0
+  · rw [(Asm.small_indexByteBodyNonASCII_correct mem base len c junk jx jz jc h16 hb).2]; exact small_loads_safe _ mem base len h16 h0
+
+/-- the `len < 16` counting paths of `countbody` and `countbodyCase`, instruction by instruction: the count stored through
+    `R8` is the scalar count, and the single load cannot fault -/
+theorem instruction_level_count_small (mem : Mem) (base len : Nat) (c : UInt8) (junk : Asm.Reg → Nat) (jx : Nat → UInt8) (jz jc : Bool)
+    (h16 : len < 16) (hb : base + 32 < 2 ^ 64) :
+    (Asm.runSmall Gen.Asm.small_countbody (Asm.init mem base len c junk jx jz jc)).out =
+        some ((specCount (fun b => b == c) mem base len : Nat) : Int) ∧
+    (Asm.runSmall Gen.Asm.small_countbodyCase (Asm.init mem base len c junk jx jz jc)).out =
+        some ((specCount (fun b => (b ||| 0x20) == c) mem base len : Nat) : Int) ∧
+    (0 < len → ∀ prog ∈ [Gen.Asm.small_countbody, Gen.Asm.small_countbodyCase],
+      ∀ ld ∈ (Asm.runSmall prog (Asm.init mem base len c junk jx jz jc)).loads, ∀ a, ld.1 ≤ a → a < ld.1 + ld.2 →
+        ∃ b, base ≤ b ∧ b < base + len ∧ a / 4096 = b / 4096) := by
+  refine ⟨?_, ?_, ?_⟩
+  · rw [(Asm.small_countbody_correct mem base len c junk jx jz jc h16 hb).1, cntSmall_correct _ mem base len h16]
+  · rw [(Asm.small_countbodyCase_correct mem base len c junk jx jz jc h16 hb).1, cntSmall_correct _ mem base len h16]
+  · intro h0 prog hprog
+    simp only [List.mem_cons, List.mem_nil_iff, or_false] at hprog
+    rcases hprog with rfl | rfl
+    · rw [(Asm.small_countbody_correct mem base len c junk jx jz jc h16 hb).2]; exact cntSmall_loads_safe _ mem base len h16 h0
+    · rw [(Asm.small_countbodyCase_correct mem base len c junk jx jz jc h16 hb).2]; exact cntSmall_loads_safe _ mem base len h16 h0
 
 /-- the `len < 16` counting path: scalar definition, and no load can fault next to an unmapped page -/
 theorem count_small (p : UInt8 → Bool) (mem : Mem) (base len : Nat) (hlen : len < 16) :
